@@ -235,7 +235,8 @@ type solverSpec struct {
 }
 
 func cvc5Prep(q string) string {
-	// cvc5: options before set-logic; needs explicit logic.
+	// cvc5: options before set-logic; needs explicit logic; z3-specific options are dropped.
+	q = strings.Replace(q, "(set-option :smt.mbqi true)\n", "", 1)
 	return "(set-option :produce-models true)\n(set-logic ALL)\n" + q
 }
 
@@ -256,65 +257,81 @@ func findSolver(name string) *solverSpec {
 	return nil
 }
 
-// RunQuery runs the query on the solvers in order until one answers sat/unsat.
-// wantModel appends (get-model) handling; query must end before (check-sat).
+// RunQuery races the solvers on the query (a portfolio: all start at once, the first sat/unsat answer wins and
+// the others are killed).
 func RunQuery(tmpdir, name, query string, timeoutS int, order []string) SolverResult {
-	var res SolverResult
+	type one struct {
+		sp     *solverSpec
+		status string
+		out    string
+		el     float64
+	}
 	start := time.Now()
+	ctx, cancel := context.WithTimeout(context.Background(), time.Duration(timeoutS+3)*time.Second)
+	defer cancel()
+	ch := make(chan one, len(order))
+	n := 0
 	for _, sn := range order {
 		sp := findSolver(sn)
 		if sp == nil {
 			continue
 		}
-		q := query
-		if sp.prep != nil {
-			q = sp.prep(q)
-		}
-		file := filepath.Join(tmpdir, mangle(name)+"."+sp.name+".smt2")
-		if err := os.WriteFile(file, []byte(q+"\n(check-sat)\n(get-model)\n"), 0o644); err != nil {
-			return SolverResult{Status: "error", Output: err.Error()}
-		}
-		t0 := time.Now()
-		ctx, cancel := context.WithTimeout(context.Background(), time.Duration(timeoutS+3)*time.Second)
-		cmd := exec.CommandContext(ctx, sp.bin, sp.args(timeoutS, file)...)
-		var out bytes.Buffer
-		cmd.Stdout = &out
-		cmd.Stderr = &out
-		_ = cmd.Run()
-		cancel()
-		el := time.Since(t0).Seconds()
-		txt := out.String()
-		first := ""
-		for _, ln := range strings.Split(txt, "\n") {
-			ln = strings.TrimSpace(ln)
-			if ln == "" || strings.HasPrefix(ln, "(error \"line") && strings.Contains(ln, "model is not available") {
-				continue
+		n++
+		go func(sp *solverSpec) {
+			q := query
+			if sp.prep != nil {
+				q = sp.prep(q)
 			}
-			first = ln
-			break
-		}
-		st := "unknown"
-		switch {
-		case first == "unsat":
-			st = "unsat"
-		case first == "sat":
-			st = "sat"
-		case first == "timeout" || strings.Contains(first, "timeout") || el >= float64(timeoutS):
-			st = "timeout"
-		case strings.HasPrefix(first, "(error"):
-			st = "error"
-		}
-		res.Tried = append(res.Tried, fmt.Sprintf("%s:%s:%.2fs", sp.name, st, el))
-		if st == "unsat" || st == "sat" {
-			res.Status, res.Solver, res.Output = st, sp.name, txt
+			file := filepath.Join(tmpdir, mangle(name)+"."+sp.name+".smt2")
+			if err := os.WriteFile(file, []byte(q+"\n(check-sat)\n(get-model)\n"), 0o644); err != nil {
+				ch <- one{sp, "error", err.Error(), 0}
+				return
+			}
+			t0 := time.Now()
+			cmd := exec.CommandContext(ctx, sp.bin, sp.args(timeoutS, file)...)
+			var out bytes.Buffer
+			cmd.Stdout = &out
+			cmd.Stderr = &out
+			_ = cmd.Run()
+			el := time.Since(t0).Seconds()
 			os.Remove(file)
-			break
+			txt := out.String()
+			first := ""
+			for _, ln := range strings.Split(txt, "\n") {
+				ln = strings.TrimSpace(ln)
+				if ln == "" {
+					continue
+				}
+				first = ln
+				break
+			}
+			st := "unknown"
+			switch {
+			case first == "unsat":
+				st = "unsat"
+			case first == "sat":
+				st = "sat"
+			case first == "timeout" || strings.Contains(first, "timeout") || el >= float64(timeoutS) || ctx.Err() != nil:
+				st = "timeout"
+			case strings.HasPrefix(first, "(error"):
+				st = "error"
+			}
+			ch <- one{sp, st, txt, el}
+		}(sp)
+	}
+	var res SolverResult
+	for i := 0; i < n; i++ {
+		r := <-ch
+		res.Tried = append(res.Tried, fmt.Sprintf("%s:%s:%.2fs", r.sp.name, r.status, r.el))
+		if r.status == "unsat" || r.status == "sat" {
+			if res.Status != "unsat" && res.Status != "sat" {
+				res.Status, res.Solver, res.Output = r.status, r.sp.name, r.out
+				cancel() // stop the others
+			}
+			continue
 		}
-		if res.Status == "" || res.Status == "error" {
-			res.Status, res.Solver, res.Output = st, sp.name, txt
-		}
-		if os.Getenv("GOVC_KEEP") == "" {
-			os.Remove(file)
+		if res.Status == "" || (res.Status == "error" && r.status != "error") {
+			res.Status, res.Solver, res.Output = r.status, r.sp.name, r.out
 		}
 	}
 	res.Seconds = time.Since(start).Seconds()
